@@ -1181,6 +1181,10 @@ func (db *DB) Repair(of Object) (err error) {
 		return
 	}
 
+	// a cached object may not be on disk anymore, from now on
+	// what is read has to come from the files
+	db.cache.purge(of)
+
 	// we re-index missing objects in index
 	if uuids, err = uuidsFromDir(dir); err != nil {
 		return
